@@ -1377,7 +1377,7 @@ pub fn main() {
     ck.assume("model = documented semantics: deref edits split along symbolic refs (symbolic ref keeps its value), duplicate names rejected, each expectation checked against the current value, MustNotExist tolerates an equal existing value, all-or-nothing; a transaction that creates a name in directory/file conflict with an existing ref it does not delete (refs/heads/a vs refs/heads/a/b, loose or packed) must not succeed (git's refname-availability rule); transactions that run into a directory/file conflict on disk (ref or reflog) may fail in prepare (nothing changes) or in commit (documented as possibly partial: each ref old or new); Delete with deref only uses Any/MustExist; log-only edits only use Any");
     ck.sub("history", SubCfg::new(600, 12_000)
             .max_len(1600)
-            .max_shrink(60)
+            .max_shrink(30)
             // worker processes: a transaction that never returns must not hang the check (termination itself is C17's matter)
             .isolated(600_000, false), history);
     ck.finish();
